@@ -11,12 +11,18 @@ import (
 	"golang.org/x/tools/go/ssa"
 )
 
-// Effect analysis (analysis E of DESIGN.md). Tags describe where a reference points:
-//   "L"        memory allocated in the current activation (or fresh from a callee)
-//   "P<i>"     memory reachable from parameter i of the current function
-//   "FV<i>"    memory reachable from free variable i (closures)
-//   "G:<name>" a package-level variable
-//   "X:<why>"  memory the analysis cannot attribute (results of dynamic calls, escaped locals ...)
+// Effect analysis (analysis E of DESIGN.md).
+//
+// Tags name memory relative to the function being analysed:
+//   "L"        an object allocated in the current activation (or returned fresh by a callee)
+//   "P<i>"     the object parameter i refers to directly (pointee, backing array, map, boxed value)
+//   "P<i>*"    any object reachable from that one through stored references (any depth)
+//   "FV<i>", "FV<i>*"  the same for captured variables of closures
+//   "G:<name>" a package-level variable or anything reachable from it
+//   "X:<why>"  memory the analysis cannot attribute
+// origin(v)    = the objects v may refer to directly;
+// reachFrom(v) = the objects reachable from those through references stored in them (flattened).
+// A write through an address a modifies origin(a).
 type tagset map[string]bool
 
 func (t tagset) add(o tagset) bool {
@@ -37,31 +43,44 @@ func (t tagset) list() []string {
 	sort.Strings(s)
 	return s
 }
-func one(s string) tagset { return tagset{s: true} }
 
-// write records one mutating instruction with a non-local target.
+// below: tag of what is reachable from an object with tag t ("" for locals: handled structurally).
+func below(t string) string {
+	switch {
+	case t == "L" || t == "F":
+		return ""
+	case strings.HasPrefix(t, "P") || strings.HasPrefix(t, "FV"):
+		if strings.HasSuffix(t, "*") {
+			return t
+		}
+		return t + "*"
+	}
+	return t
+}
+
 type write struct {
 	Pos    token.Pos
 	Fn     *ssa.Function
 	What   string
 	Tags   tagset
-	Callee *ssa.Function     // for writes performed by a repository callee
+	Callee *ssa.Function
 	Map    map[string]tagset // callee tag -> caller tags
 }
 
 type fnSummary struct {
-	W      tagset  // tags (in terms of the function's own parameters) of memory it may write
-	R      tagset  // tags of the references it may return ("F" = fresh)
+	W      tagset                  // memory it may write (own-parameter terms)
 	WLoc   map[string][]types.Type // tag -> types of the objects written through it (nil entry = unknown)
-	S      map[int]tagset // parameter j -> tags of the references it may store into memory reachable from parameter j
-	Writes []write // the individual non-local writes (for reporting)
+	R      tagset                  // origin of returned references ("F" = fresh)
+	Rc     tagset                  // what is reachable from the returned references
+	S      map[int]tagset          // parameter j -> references it may store into memory reachable from parameter j
+	Writes []write
 }
 
 type effects struct {
-	w       *World
-	sum     map[*ssa.Function]*fnSummary
-	cg      *callgraph.Graph
-	assumed map[string]bool
+	w              *World
+	sum            map[*ssa.Function]*fnSummary
+	cg             *callgraph.Graph
+	assumed        map[string]bool
 	unknownCallees map[string]bool
 }
 
@@ -87,18 +106,24 @@ func isRefType(t types.Type) bool {
 	return false
 }
 
+var effectsCache *effects
+
 func (w *World) Effects() *effects {
-	e := &effects{w: w, sum: map[*ssa.Function]*fnSummary{}, cg: w.CallGraph(), assumed: map[string]bool{}, unknownCallees: map[string]bool{}}
-	return e
+	if effectsCache == nil {
+		theWorld = w
+		effectsCache = &effects{w: w, sum: map[*ssa.Function]*fnSummary{}, cg: w.CallGraph(), assumed: map[string]bool{}, unknownCallees: map[string]bool{}}
+	}
+	return effectsCache
 }
 
-// allocUses: how the address of an alloc leaves the function: as call arguments (calls) or otherwise (other).
+// callUse: a call that receives (an address derived from) a local.
 type callUse struct {
 	Call ssa.CallInstruction
 	Arg  int
 }
 
-func allocUses(al *ssa.Alloc) (calls []callUse, other bool) {
+// localUses: how a local object (alloc, make) leaves the function.
+func localUses(root ssa.Value, localHolder func(addr ssa.Value) bool) (calls []callUse, other bool) {
 	seen := map[ssa.Value]bool{}
 	var walk func(v ssa.Value)
 	walk = func(v ssa.Value) {
@@ -116,27 +141,46 @@ func allocUses(al *ssa.Alloc) (calls []callUse, other bool) {
 				if x.X == v {
 					walk(x)
 				}
+			case *ssa.Slice:
+				if x.X == v {
+					walk(x)
+				}
 			case *ssa.Store:
-				if x.Val == v {
+				if x.Val == v && !localHolder(x.Addr) {
+					other = true
+				}
+			case *ssa.MapUpdate:
+				if (x.Value == v || x.Key == v) && !localHolder(x.Map) {
 					other = true
 				}
 			case *ssa.UnOp:
 			case ssa.CallInstruction:
+				if b, ok := x.Common().Value.(*ssa.Builtin); ok {
+					if b.Name() == "append" && x.Common().Args[0] == v {
+						// the result may share the backing array of the first argument only
+						if c, ok := x.(*ssa.Call); ok {
+							walk(c)
+						}
+					}
+					continue
+				}
 				for i, a := range callArgs(x) {
 					if a == v {
 						calls = append(calls, callUse{x, i})
 					}
 				}
-			case *ssa.MakeInterface, *ssa.ChangeType:
-				walk(x.(ssa.Value))
+			case *ssa.MakeInterface:
+				walk(x)
+			case *ssa.ChangeType:
+				walk(x)
+			case *ssa.Phi:
+				walk(x)
 			case *ssa.MakeClosure:
-				// captured by a closure: only a closure that assigns through the captured variable changes the contents
 				if cf, ok := x.Fn.(*ssa.Function); ok {
 					for k, b := range x.Bindings {
 						if b != v || k >= len(cf.FreeVars) {
 							continue
 						}
-						fv := cf.FreeVars[k]
 						assigned := false
 						var chase func(a ssa.Value)
 						chase = func(a ssa.Value) {
@@ -155,7 +199,7 @@ func allocUses(al *ssa.Alloc) (calls []callUse, other bool) {
 								}
 							}
 						}
-						chase(fv)
+						chase(cf.FreeVars[k])
 						if assigned {
 							other = true
 						}
@@ -163,50 +207,52 @@ func allocUses(al *ssa.Alloc) (calls []callUse, other bool) {
 				} else {
 					other = true
 				}
-			case *ssa.Return, *ssa.Phi, *ssa.Slice:
-				other = true
+			case *ssa.Return:
+				// returned: the caller sees it through the R/Rc summaries
 			}
 		}
 	}
-	walk(al)
+	walk(root)
 	return
 }
 
 type originCtx struct {
-	e     *effects
-	fn    *ssa.Function
-	memo  map[ssa.Value]tagset
-	stack map[ssa.Value]bool
+	e      *effects
+	fn     *ssa.Function
+	memoO  map[ssa.Value]tagset
+	memoR  map[ssa.Value]tagset
+	stackO map[ssa.Value]bool
+	stackR map[ssa.Value]bool
 }
 
-func (oc *originCtx) paramIndex(p *ssa.Parameter) int {
+func (oc *originCtx) paramTag(p *ssa.Parameter) string {
 	for i, x := range oc.fn.Params {
 		if x == p {
-			return i
+			return fmt.Sprintf("P%d", i)
 		}
 	}
-	return -1
+	return "P?"
 }
 
-// origin computes the tags of the memory v may refer to.
+// origin: the objects v may refer to directly.
 func (oc *originCtx) origin(v ssa.Value) tagset {
 	if v == nil {
 		return tagset{}
 	}
-	if t, ok := oc.memo[v]; ok {
+	if t, ok := oc.memoO[v]; ok {
 		return t
 	}
-	if oc.stack[v] {
+	if oc.stackO[v] {
 		return tagset{}
 	}
-	oc.stack[v] = true
-	defer delete(oc.stack, v)
+	oc.stackO[v] = true
+	defer delete(oc.stackO, v)
 	res := tagset{}
 	switch x := v.(type) {
 	case *ssa.Const, *ssa.Function, *ssa.Builtin:
 	case *ssa.Parameter:
 		if isRefType(x.Type()) {
-			res[fmt.Sprintf("P%d", oc.paramIndex(x))] = true
+			res[oc.paramTag(x)] = true
 		}
 	case *ssa.FreeVar:
 		for i, fv := range oc.fn.FreeVars {
@@ -230,7 +276,7 @@ func (oc *originCtx) origin(v ssa.Value) tagset {
 		if isRefType(x.Type()) && isRefType(x.X.Type()) {
 			res.add(oc.origin(x.X))
 		} else if isRefType(x.Type()) {
-			res["L"] = true // string -> []byte/[]rune: fresh
+			res["L"] = true
 		}
 	case *ssa.MakeInterface:
 		res.add(oc.origin(x.X))
@@ -239,7 +285,7 @@ func (oc *originCtx) origin(v ssa.Value) tagset {
 	case *ssa.TypeAssert:
 		res.add(oc.origin(x.X))
 	case *ssa.Extract:
-		res.add(oc.originOfTuple(x.Tuple, x.Index))
+		res.add(oc.originOfTuple(x.Tuple, x.Index, false))
 	case *ssa.Phi:
 		for _, e := range x.Edges {
 			res.add(oc.origin(e))
@@ -247,102 +293,236 @@ func (oc *originCtx) origin(v ssa.Value) tagset {
 	case *ssa.Field:
 		res.add(oc.origin(x.X))
 	case *ssa.Index:
-		res.add(oc.origin(x.X))
+		res.add(oc.reachFrom(x.X))
 	case *ssa.Lookup:
 		if isRefType(x.Type()) {
-			res.add(oc.origin(x.X))
+			res.add(oc.reachFrom(x.X))
 		}
-	case *ssa.Next, *ssa.Range:
-		if r, ok := x.(*ssa.Range); ok {
-			res.add(oc.origin(r.X))
-		} else {
-			res.add(oc.origin(x.(*ssa.Next).Iter))
-		}
+	case *ssa.Range:
+		res.add(oc.origin(x.X))
+	case *ssa.Next:
+		res.add(oc.reachFrom(x.Iter))
 	case *ssa.UnOp:
 		if x.Op == token.MUL {
-			if !isRefType(x.Type()) {
-				break
-			}
-			// load: contents of the memory at x.X
-			root := x.X
-			for {
-				if fa, ok := root.(*ssa.FieldAddr); ok {
-					root = fa.X
-				} else if ia, ok := root.(*ssa.IndexAddr); ok {
-					root = ia.X
-				} else {
-					break
-				}
-			}
-			if al, ok := root.(*ssa.Alloc); ok {
-				for _, st := range storesInto(al) {
-					res.add(oc.origin(st.Val))
-				}
-				calls, other := allocUses(al)
-				if other {
-					res["X:contents of a local whose address was stored or captured ("+al.Comment+")"] = true
-				}
-				for _, cu := range calls {
-					callees := oc.e.callees(cu.Call)
-					if len(callees) == 0 {
-						res["X:contents of a local passed to an unresolved call ("+al.Comment+")"] = true
-					}
-					for _, g := range callees {
-						if !inRepo(g) {
-							res.add(oc.e.externalStores(g))
-							continue
-						}
-						gs := oc.e.summary(g)
-						for t := range gs.S[cu.Arg] {
-							oc.e.mapTag(t, cu.Call, g, oc, res)
-						}
-					}
-				}
-			} else {
-				// contents of non-local memory: reachable from the same roots
-				for t := range oc.origin(x.X) {
-					if t == "L" {
-						res["X:contents of memory returned by a callee"] = true
-					} else {
-						res[t] = true
-					}
-				}
+			if isRefType(x.Type()) {
+				res.add(oc.reachFrom(x.X))
 			}
 		} else if x.Op == token.ARROW {
 			res["X:received from a channel"] = true
 		}
 	case *ssa.BinOp:
 	case *ssa.Call:
-		res.add(oc.originOfTuple(x, -1))
+		res.add(oc.originOfTuple(x, -1, false))
 	default:
 		if isRefType(v.Type()) {
 			res[fmt.Sprintf("X:%T", v)] = true
 		}
 	}
-	oc.memo[v] = res
+	oc.memoO[v] = res
 	return res
 }
 
-// originOfTuple: origin of result idx (or the single result when idx<0) of a call.
-func (oc *originCtx) originOfTuple(v ssa.Value, idx int) tagset {
+// reachFrom: the objects reachable through references stored in the object(s) v refers to (flattened).
+func (oc *originCtx) reachFrom(v ssa.Value) tagset {
+	if v == nil {
+		return tagset{}
+	}
+	if t, ok := oc.memoR[v]; ok {
+		return t
+	}
+	if oc.stackR[v] {
+		return tagset{}
+	}
+	oc.stackR[v] = true
+	defer delete(oc.stackR, v)
+	res := tagset{}
+	addStored := func(val ssa.Value) {
+		if val == nil || !isRefType(val.Type()) {
+			return
+		}
+		res.add(oc.origin(val))
+		res.add(oc.reachFrom(val))
+	}
+	local := func(root ssa.Value) {
+		switch r := root.(type) {
+		case *ssa.Alloc:
+			for _, st := range storesInto(root) {
+				addStored(st.Val)
+			}
+		case *ssa.MakeSlice:
+			for _, st := range storesIntoSlice(root) {
+				addStored(st.Val)
+			}
+		case *ssa.MakeMap:
+			for _, rr := range referrers(root) {
+				if mu, ok := rr.(*ssa.MapUpdate); ok && mu.Map == root {
+					addStored(mu.Value)
+					addStored(mu.Key)
+				}
+			}
+		case *ssa.MakeClosure:
+			for _, b := range r.Bindings {
+				addStored(b)
+			}
+		}
+		calls, other := localUses(root, func(addr ssa.Value) bool {
+			for t := range oc.origin(addr) {
+				if t != "L" {
+					return false
+				}
+			}
+			return true
+		})
+		if other {
+			res["X:contents of a local that was stored elsewhere or captured ("+root.Name()+" in "+oc.fn.Name()+")"] = true
+		}
+		for _, cu := range calls {
+			callees := oc.e.callees(cu.Call)
+			if len(callees) == 0 {
+				res["X:contents of a local passed to a function outside the analysis"] = true
+			}
+			for _, g := range callees {
+				if !inRepo(g) {
+					continue // external callees fill what they are given with fresh data (model)
+				}
+				gs := oc.e.summary(g)
+				for t := range gs.S[cu.Arg] {
+					oc.e.mapTag(t, cu.Call, g, oc, res)
+				}
+			}
+		}
+	}
+	switch x := v.(type) {
+	case *ssa.Const, *ssa.Function, *ssa.Builtin:
+	case *ssa.Parameter:
+		if isRefType(x.Type()) {
+			res[oc.paramTag(x)+"*"] = true
+		}
+	case *ssa.FreeVar:
+		for i, fv := range oc.fn.FreeVars {
+			if fv == x {
+				res[fmt.Sprintf("FV%d*", i)] = true
+			}
+		}
+	case *ssa.Global:
+		res["G:"+x.Pkg.Pkg.Name()+"."+x.Name()] = true
+	case *ssa.Alloc, *ssa.MakeSlice, *ssa.MakeMap, *ssa.MakeClosure:
+		local(v)
+	case *ssa.MakeChan:
+	case *ssa.FieldAddr:
+		res.add(oc.reachFrom(x.X))
+	case *ssa.IndexAddr:
+		res.add(oc.reachFrom(x.X))
+	case *ssa.Slice:
+		res.add(oc.reachFrom(x.X))
+	case *ssa.ChangeType:
+		res.add(oc.reachFrom(x.X))
+	case *ssa.Convert:
+		if isRefType(x.X.Type()) {
+			res.add(oc.reachFrom(x.X))
+		}
+	case *ssa.MakeInterface:
+		res.add(oc.reachFrom(x.X))
+	case *ssa.ChangeInterface:
+		res.add(oc.reachFrom(x.X))
+	case *ssa.TypeAssert:
+		res.add(oc.reachFrom(x.X))
+	case *ssa.Field:
+		res.add(oc.reachFrom(x.X))
+	case *ssa.Range:
+		res.add(oc.reachFrom(x.X))
+	case *ssa.Phi:
+		for _, e := range x.Edges {
+			res.add(oc.reachFrom(e))
+		}
+	case *ssa.Extract:
+		res.add(oc.originOfTuple(x.Tuple, x.Index, true))
+	case *ssa.Call:
+		res.add(oc.originOfTuple(x, -1, true))
+	default:
+		// loaded / looked-up values: everything below what they may refer to
+		for t := range oc.origin(v) {
+			if b := below(t); b != "" {
+				res[b] = true
+			} else {
+				res.add(oc.loadedLocalContents(v))
+			}
+		}
+	}
+	oc.memoR[v] = res
+	return res
+}
+
+// loadedLocalContents: v was loaded from memory and may refer to a local object; with flattening the
+// contents of the holder are an upper bound of the contents of the loaded object.
+func (oc *originCtx) loadedLocalContents(v ssa.Value) tagset {
+	switch x := v.(type) {
+	case *ssa.UnOp:
+		return oc.reachFrom(x.X)
+	case *ssa.Lookup:
+		return oc.reachFrom(x.X)
+	case *ssa.Index:
+		return oc.reachFrom(x.X)
+	case *ssa.Next:
+		return oc.reachFrom(x.Iter)
+	}
+	return tagset{}
+}
+
+// storesIntoSlice: stores through IndexAddr on a make([]T) value (following slices and phis of it).
+func storesIntoSlice(root ssa.Value) []*ssa.Store {
+	var out []*ssa.Store
+	seen := map[ssa.Value]bool{}
+	var walk func(v ssa.Value)
+	walk = func(v ssa.Value) {
+		if seen[v] {
+			return
+		}
+		seen[v] = true
+		for _, r := range referrers(v) {
+			switch x := r.(type) {
+			case *ssa.IndexAddr:
+				if x.X == v {
+					for _, rr := range referrers(x) {
+						if st, ok := rr.(*ssa.Store); ok && st.Addr == ssa.Value(x) {
+							out = append(out, st)
+						}
+					}
+				}
+			case *ssa.Slice:
+				if x.X == v {
+					walk(x)
+				}
+			case *ssa.Phi:
+				walk(x)
+			}
+		}
+	}
+	walk(root)
+	return out
+}
+
+// originOfTuple: origin (contents=false) or reachFrom (contents=true) of result idx of a call-like value.
+func (oc *originCtx) originOfTuple(v ssa.Value, idx int, contents bool) tagset {
 	res := tagset{}
 	c, ok := v.(*ssa.Call)
 	if !ok {
 		switch x := v.(type) {
 		case *ssa.TypeAssert:
 			if idx == 0 {
+				if contents {
+					return oc.reachFrom(x.X)
+				}
 				return oc.origin(x.X)
 			}
-			return res
 		case *ssa.Lookup:
-			if idx == 0 && isRefType(x.Type().(*types.Tuple).At(0).Type()) {
-				return oc.origin(x.X)
+			if idx == 0 {
+				return oc.reachFrom(x.X)
 			}
-			return res
 		case *ssa.Next:
-			return oc.origin(x.Iter)
+			return oc.reachFrom(x.Iter)
 		case *ssa.UnOp:
-			return oc.origin(x.X)
+			return oc.reachFrom(x.X)
 		}
 		return res
 	}
@@ -355,25 +535,33 @@ func (oc *originCtx) originOfTuple(v ssa.Value, idx int) tagset {
 	}
 	cc := c.Common()
 	if b, ok := cc.Value.(*ssa.Builtin); ok {
-		switch b.Name() {
-		case "append":
-			res.add(oc.origin(cc.Args[0]))
-			res["L"] = true
+		if b.Name() == "append" {
+			if contents {
+				res.add(oc.reachFrom(cc.Args[0]))
+				res.add(oc.reachFrom(cc.Args[1]))
+			} else {
+				res.add(oc.origin(cc.Args[0]))
+				res["L"] = true
+			}
 		}
 		return res
 	}
 	callees := oc.e.callees(c)
 	if len(callees) == 0 {
-		res["X:result of an unresolved call ("+calleeName(c)+")"] = true
+		res["X:result of a call outside the analysis ("+calleeName(c)+")"] = true
 		return res
 	}
 	for _, g := range callees {
 		if !inRepo(g) {
-			res.add(oc.e.externalResult(g, c, oc))
+			res.add(oc.e.externalResult(g, c, oc, contents))
 			continue
 		}
 		s := oc.e.summary(g)
-		for t := range s.R {
+		src := s.R
+		if contents {
+			src = s.Rc
+		}
+		for t := range src {
 			oc.e.mapTag(t, c, g, oc, res)
 		}
 	}
@@ -382,30 +570,39 @@ func (oc *originCtx) originOfTuple(v ssa.Value, idx int) tagset {
 
 // mapTag translates a callee-relative tag to the caller's terms.
 func (e *effects) mapTag(t string, c ssa.CallInstruction, g *ssa.Function, oc *originCtx, out tagset) {
+	deep := strings.HasSuffix(t, "*")
+	base := strings.TrimSuffix(t, "*")
 	switch {
 	case t == "F" || t == "L":
 		out["L"] = true
-	case strings.HasPrefix(t, "P"):
+	case strings.HasPrefix(base, "FV"):
 		var j int
-		fmt.Sscanf(t, "P%d", &j)
+		fmt.Sscanf(base, "FV%d", &j)
+		if mc, ok := c.Common().Value.(*ssa.MakeClosure); ok && j < len(mc.Bindings) {
+			if deep {
+				out.add(oc.reachFrom(mc.Bindings[j]))
+			} else {
+				out.add(oc.origin(mc.Bindings[j]))
+			}
+		} else {
+			out["X:variable captured by a function value"] = true
+		}
+	case strings.HasPrefix(base, "P"):
+		var j int
+		fmt.Sscanf(base, "P%d", &j)
 		args := callArgs(c)
 		if j < len(args) {
-			out.add(oc.origin(args[j]))
-		}
-	case strings.HasPrefix(t, "FV"):
-		var j int
-		fmt.Sscanf(t, "FV%d", &j)
-		if mc, ok := c.Common().Value.(*ssa.MakeClosure); ok && j < len(mc.Bindings) {
-			out.add(oc.origin(mc.Bindings[j]))
-		} else {
-			out["X:captured variable of a closure value"] = true
+			if deep {
+				out.add(oc.reachFrom(args[j]))
+			} else {
+				out.add(oc.origin(args[j]))
+			}
 		}
 	default:
 		out[t] = true
 	}
 }
 
-// callArgs: arguments including the receiver for invoke-mode calls (receiver first).
 func callArgs(c ssa.CallInstruction) []ssa.Value {
 	cc := c.Common()
 	if cc.IsInvoke() {
@@ -430,17 +627,22 @@ func (e *effects) callees(c ssa.CallInstruction) []*ssa.Function {
 	return out
 }
 
-// external callee model
+func pkgPathOf(g *ssa.Function) string {
+	if g.Pkg != nil {
+		return g.Pkg.Pkg.Path()
+	}
+	if o := g.Object(); o != nil && o.Pkg() != nil {
+		return o.Pkg().Path()
+	}
+	return ""
+}
+
+// external callee model: which of its arguments an external function writes.
 func (e *effects) externalWrites(g *ssa.Function, c ssa.CallInstruction, oc *originCtx) tagset {
 	name := funcFullName(g)
 	out := tagset{}
 	args := callArgs(c)
-	pk := ""
-	if g.Pkg != nil {
-		pk = g.Pkg.Pkg.Path()
-	} else if o := g.Object(); o != nil && o.Pkg() != nil {
-		pk = o.Pkg().Path()
-	}
+	pk := pkgPathOf(g)
 	writesRecv := func() {
 		if len(args) > 0 {
 			out.add(oc.origin(args[0]))
@@ -457,16 +659,14 @@ func (e *effects) externalWrites(g *ssa.Function, c ssa.CallInstruction, oc *ori
 		writesRecv()
 	case name == "fmt.Print" || name == "fmt.Println" || name == "fmt.Printf":
 		out["G:os.Stdout"] = true
-	case strings.HasPrefix(name, "(reflect.Value).Set") || name == "(reflect.Value).Set":
+	case strings.HasPrefix(name, "(reflect.Value).Set"):
 		writesRecv()
 	case pk == "reflect":
 	case pk == "strings" || pk == "strconv" || pk == "math" || pk == "unicode" || pk == "unicode/utf8" || pk == "errors" || pk == "fmt" || pk == "bytes" || pk == "sort":
 	case strings.HasPrefix(pk, "golang.org/x/text"):
 	case pk == "github.com/pkg/errors":
-	case strings.HasPrefix(name, "(*sync.WaitGroup).") || strings.HasPrefix(name, "(*sync.Mutex)."):
-		// synchronisation objects are written by design
+	case strings.HasPrefix(name, "(*sync.WaitGroup).") || strings.HasPrefix(name, "(*sync.Mutex).") || strings.HasPrefix(name, "(*sync.RWMutex)."):
 	default:
-		// unknown external callee: a write if it receives a non-local reference
 		for _, a := range args {
 			if !isRefType(a.Type()) {
 				continue
@@ -482,12 +682,7 @@ func (e *effects) externalWrites(g *ssa.Function, c ssa.CallInstruction, oc *ori
 	return out
 }
 
-// externalStores: what an external callee may leave in memory it is given (decoders fill buffers with fresh data).
-func (e *effects) externalStores(g *ssa.Function) tagset {
-	return tagset{"L": true}
-}
-
-func (e *effects) externalResult(g *ssa.Function, c *ssa.Call, oc *originCtx) tagset {
+func (e *effects) externalResult(g *ssa.Function, c *ssa.Call, oc *originCtx, contents bool) tagset {
 	name := funcFullName(g)
 	out := tagset{}
 	args := callArgs(c)
@@ -496,9 +691,12 @@ func (e *effects) externalResult(g *ssa.Function, c *ssa.Call, oc *originCtx) ta
 		strings.HasPrefix(name, "(reflect.Value).Addr") || strings.HasPrefix(name, "(reflect.Value).Index") || strings.HasPrefix(name, "(reflect.Value).Interface"):
 		if len(args) > 0 {
 			out.add(oc.origin(args[0]))
+			out.add(oc.reachFrom(args[0]))
 		}
 	default:
-		out["L"] = true
+		if !contents {
+			out["L"] = true
+		}
 	}
 	return out
 }
@@ -508,14 +706,13 @@ var readOnlyMethods = map[string]bool{"Pos": true, "Node": true, "Namespaces": t
 	"Target": true, "ProcInstValue": true, "String": true, "Number": true, "Bool": true, "Error": true, "Result": true, "ContextPosition": true, "ContextSize": true,
 	"Len": true, "Less": true, "Kind": true, "Elem": true, "Name": true, "Field": true, "NumField": true, "AssignableTo": true, "Get": true}
 
-// summary computes (to a fixpoint, lazily) the effect summary of a repository function.
 func (e *effects) summary(fn *ssa.Function) *fnSummary {
 	if s, ok := e.sum[fn]; ok {
 		return s
 	}
-	s := &fnSummary{W: tagset{}, R: tagset{}, S: map[int]tagset{}, WLoc: map[string][]types.Type{}}
+	s := &fnSummary{W: tagset{}, R: tagset{}, Rc: tagset{}, S: map[int]tagset{}, WLoc: map[string][]types.Type{}}
 	e.sum[fn] = s
-	for round := 0; round < 6; round++ {
+	for round := 0; round < 8; round++ {
 		if !e.analyse(fn, s) {
 			break
 		}
@@ -523,166 +720,24 @@ func (e *effects) summary(fn *ssa.Function) *fnSummary {
 	return s
 }
 
-func (e *effects) analyse(fn *ssa.Function, s *fnSummary) bool {
-	oc := &originCtx{e: e, fn: fn, memo: map[ssa.Value]tagset{}, stack: map[ssa.Value]bool{}}
-	changed := false
-	s.Writes = nil
-	var lastCallee *ssa.Function
-	var lastMap map[string]tagset
-	var loc types.Type // type of the object the current instruction writes into (nil = unknown)
-	record := func(pos token.Pos, what string, tags tagset) {
-		nl := tagset{}
-		for t := range tags {
-			if t == "L" {
-				continue
-			}
-			if strings.HasPrefix(t, "G:") && loc != nil && !e.globalMayContain(t, loc) {
-				continue
-			}
-			nl[t] = true
+// settle re-analyses every summarised function until nothing changes (mutual recursion).
+func (e *effects) settle() {
+	for round := 0; round < 12; round++ {
+		changed := false
+		var fns []*ssa.Function
+		for f := range e.sum {
+			fns = append(fns, f)
 		}
-		if len(nl) == 0 {
-			return
-		}
-		s.Writes = append(s.Writes, write{Pos: pos, Fn: fn, What: what, Tags: nl, Callee: lastCallee, Map: lastMap})
-		if s.W.add(nl) {
-			changed = true
-		}
-		for t := range nl {
-			if addLoc(s, t, loc) {
+		sort.Slice(fns, func(i, j int) bool { return fns[i].String() < fns[j].String() })
+		for _, f := range fns {
+			if e.analyse(f, e.sum[f]) {
 				changed = true
 			}
 		}
-	}
-	noteStore := func(addr, val tagset) bool {
-		ch := false
-		for t := range addr {
-			var j int
-			if n, _ := fmt.Sscanf(t, "P%d", &j); n != 1 || !strings.HasPrefix(t, "P") {
-				continue
-			}
-			if s.S[j] == nil {
-				s.S[j] = tagset{}
-			}
-			for v := range val {
-				if v == "L" {
-					v = "F"
-				}
-				if !s.S[j][v] {
-					s.S[j][v] = true
-					ch = true
-				}
-			}
+		if !changed {
+			return
 		}
-		return ch
 	}
-	allInstrs(fn, func(in ssa.Instruction) {
-		switch x := in.(type) {
-		case *ssa.Store:
-			loc = writtenObjectType(x.Addr)
-			record(x.Pos(), "store", oc.origin(x.Addr))
-			loc = nil
-			if isRefType(x.Val.Type()) {
-				if noteStore(oc.origin(x.Addr), oc.origin(x.Val)) {
-					changed = true
-				}
-			}
-		case *ssa.MapUpdate:
-			loc = x.Map.Type()
-			record(x.Pos(), "map update", oc.origin(x.Map))
-			loc = nil
-			if isRefType(x.Value.Type()) {
-				if noteStore(oc.origin(x.Map), oc.origin(x.Value)) {
-					changed = true
-				}
-			}
-		case *ssa.Send:
-			// channel operations are synchronisation, not data writes
-		case *ssa.Return:
-			for _, rv := range x.Results {
-				if !isRefType(rv.Type()) {
-					continue
-				}
-				for t := range oc.origin(rv) {
-					if t == "L" {
-						t = "F"
-					}
-					if !s.R[t] {
-						s.R[t] = true
-						changed = true
-					}
-				}
-			}
-		case ssa.CallInstruction:
-			cc := x.Common()
-			if b, ok := cc.Value.(*ssa.Builtin); ok {
-				switch b.Name() {
-				case "append":
-					loc = cc.Args[0].Type()
-					record(x.Pos(), "append (writes the backing array of its first argument when it has spare capacity)", oc.origin(cc.Args[0]))
-				case "copy":
-					loc = cc.Args[0].Type()
-					record(x.Pos(), "copy", oc.origin(cc.Args[0]))
-				case "delete":
-					loc = cc.Args[0].Type()
-					record(x.Pos(), "delete", oc.origin(cc.Args[0]))
-				}
-				loc = nil
-				return
-			}
-			callees := e.callees(x)
-			if len(callees) == 0 {
-				if cc.IsInvoke() {
-					if !readOnlyMethods[cc.Method.Name()] {
-						e.assumed["interface method "+cc.Method.FullName()+" has no repository implementation; assumed not to write shared memory"] = true
-					}
-				} else {
-					e.assumed["function values of type "+cc.Value.Type().String()+" supplied by the caller (user functions / options) are outside the analysis"] = true
-				}
-				return
-			}
-			for _, g := range callees {
-				if !inRepo(g) {
-					record(x.Pos(), "call of "+funcFullName(g), e.externalWrites(g, x, oc))
-					continue
-				}
-				gs := e.summary(g)
-				m := map[string]tagset{}
-				for t := range gs.W {
-					one := tagset{}
-					e.mapTag(t, x, g, oc, one)
-					// one record per written object type so that impossible global targets can be dropped
-					locs := gs.WLoc[t]
-					if len(locs) == 0 {
-						locs = []types.Type{nil}
-					}
-					for _, lt := range locs {
-						lastCallee, lastMap = g, map[string]tagset{t: one}
-						loc = lt
-						record(x.Pos(), "call of "+g.Name(), one)
-					}
-					m[t] = one
-				}
-				loc = nil
-				lastCallee, lastMap = nil, nil
-				// stores performed by the callee into memory reachable from its parameters
-				args := callArgs(x)
-				for k, st := range gs.S {
-					if k >= len(args) {
-						continue
-					}
-					vals := tagset{}
-					for t := range st {
-						e.mapTag(t, x, g, oc, vals)
-					}
-					if noteStore(oc.origin(args[k]), vals) {
-						changed = true
-					}
-				}
-			}
-		}
-	})
-	return changed
 }
 
 func addLoc(s *fnSummary, tag string, loc types.Type) bool {
@@ -695,7 +750,6 @@ func addLoc(s *fnSummary, tag string, loc types.Type) bool {
 		}
 	}
 	if len(s.WLoc[tag]) > 24 {
-		// too many distinct types: fall back to unknown
 		for _, l := range s.WLoc[tag] {
 			if l == nil {
 				return false
@@ -708,7 +762,6 @@ func addLoc(s *fnSummary, tag string, loc types.Type) bool {
 	return true
 }
 
-// writtenObjectType: the type of the object a store through addr modifies.
 func writtenObjectType(addr ssa.Value) types.Type {
 	switch a := addr.(type) {
 	case *ssa.FieldAddr:
@@ -724,30 +777,48 @@ func writtenObjectType(addr ssa.Value) types.Type {
 	return nil
 }
 
-// globalMayContain: can an object of type loc be the global itself or be reachable from it?
-func (e *effects) globalMayContain(tag string, loc types.Type) bool {
-	name := strings.TrimPrefix(tag, "G:")
-	i := strings.Index(name, ".")
-	if i < 0 {
-		return true
+// implementers lists the named types of the program (and their pointers) that implement iface.
+var implCache = map[string][]types.Type{}
+var theWorld *World
+
+func implementers(iface *types.Interface) []types.Type {
+	k := iface.String()
+	if r, ok := implCache[k]; ok {
+		return r
 	}
-	var g *ssa.Global
-	for _, p := range e.w.Prog.AllPackages() {
-		if p.Pkg.Name() == name[:i] {
-			if gg, ok := p.Members[name[i+1:]].(*ssa.Global); ok {
-				g = gg
+	var out []types.Type
+	if theWorld != nil {
+		for _, p := range theWorld.Prog.AllPackages() {
+			for _, m := range p.Members {
+				tn, ok := m.(*ssa.Type)
+				if !ok {
+					continue
+				}
+				t := tn.Type()
+				if _, isIface := t.Underlying().(*types.Interface); isIface {
+					continue
+				}
+				if types.Implements(t, iface) {
+					out = append(out, t)
+				} else if types.Implements(types.NewPointer(t), iface) {
+					out = append(out, types.NewPointer(t))
+				}
 			}
 		}
 	}
-	if g == nil {
-		return true
-	}
-	root := g.Type().(*types.Pointer).Elem()
+	implCache[k] = out
+	return out
+}
+
+// typeMayContain: can an object of type loc be root itself or be reachable from a value of type root?
+// Interfaces are resolved to the types of the program that implement them; the empty interface and
+// function values can hide anything.
+func typeMayContain(root, loc types.Type) bool {
 	seen := map[string]bool{}
 	found := false
 	var walk func(t types.Type, depth int)
 	walk = func(t types.Type, depth int) {
-		if found || depth > 12 {
+		if found || depth > 16 {
 			return
 		}
 		if types.Identical(t, loc) {
@@ -760,8 +831,16 @@ func (e *effects) globalMayContain(tag string, loc types.Type) bool {
 		}
 		seen[k] = true
 		switch u := t.Underlying().(type) {
-		case *types.Interface, *types.Signature:
-			found = true // anything may hide behind an interface or a closure
+		case *types.Signature:
+			found = true
+		case *types.Interface:
+			if u.NumMethods() == 0 {
+				found = true
+				return
+			}
+			for _, it := range implementers(u) {
+				walk(it, depth+1)
+			}
 		case *types.Pointer:
 			walk(u.Elem(), depth+1)
 		case *types.Slice:
@@ -783,9 +862,226 @@ func (e *effects) globalMayContain(tag string, loc types.Type) bool {
 	return found
 }
 
+// paramMayContain: may a write to an object of type loc hit memory named by parameter tag t of fn?
+func paramMayContain(fn *ssa.Function, t string, loc types.Type) bool {
+	var j int
+	base := strings.TrimSuffix(t, "*")
+	if n, _ := fmt.Sscanf(base, "P%d", &j); n != 1 || j >= len(fn.Params) {
+		return true
+	}
+	return typeMayContain(fn.Params[j].Type(), loc)
+}
+
+func (e *effects) globalMayContain(tag string, loc types.Type) bool {
+	name := strings.TrimPrefix(tag, "G:")
+	i := strings.Index(name, ".")
+	if i < 0 {
+		return true
+	}
+	var g *ssa.Global
+	for _, p := range e.w.Prog.AllPackages() {
+		if p.Pkg.Name() == name[:i] {
+			if gg, ok := p.Members[name[i+1:]].(*ssa.Global); ok {
+				g = gg
+			}
+		}
+	}
+	if g == nil {
+		return true
+	}
+	return typeMayContain(g.Type().(*types.Pointer).Elem(), loc)
+}
+
+func (e *effects) analyse(fn *ssa.Function, s *fnSummary) bool {
+	oc := &originCtx{e: e, fn: fn, memoO: map[ssa.Value]tagset{}, memoR: map[ssa.Value]tagset{}, stackO: map[ssa.Value]bool{}, stackR: map[ssa.Value]bool{}}
+	changed := false
+	s.Writes = nil
+	var lastCallee *ssa.Function
+	var lastMap map[string]tagset
+	var loc types.Type
+	record := func(pos token.Pos, what string, tags tagset) {
+		nl := tagset{}
+		for t := range tags {
+			if t == "L" {
+				continue
+			}
+			if strings.HasPrefix(t, "G:") && loc != nil && !e.globalMayContain(t, loc) {
+				continue
+			}
+			if strings.HasPrefix(t, "P") && loc != nil && !paramMayContain(fn, t, loc) {
+				continue
+			}
+			nl[t] = true
+		}
+		if len(nl) == 0 {
+			return
+		}
+		s.Writes = append(s.Writes, write{Pos: pos, Fn: fn, What: what, Tags: nl, Callee: lastCallee, Map: lastMap})
+		if s.W.add(nl) {
+			changed = true
+		}
+		for t := range nl {
+			if addLoc(s, t, loc) {
+				changed = true
+			}
+		}
+	}
+	noteStore := func(addr, val tagset) bool {
+		ch := false
+		for t := range addr {
+			base := strings.TrimSuffix(t, "*")
+			var j int
+			if !strings.HasPrefix(base, "P") || base == "P?" {
+				continue
+			}
+			if n, _ := fmt.Sscanf(base, "P%d", &j); n != 1 {
+				continue
+			}
+			if s.S[j] == nil {
+				s.S[j] = tagset{}
+			}
+			for v := range val {
+				if v == "L" {
+					v = "F"
+				}
+				if !s.S[j][v] {
+					s.S[j][v] = true
+					ch = true
+				}
+			}
+		}
+		return ch
+	}
+	stored := func(val ssa.Value) tagset {
+		t := tagset{}
+		t.add(oc.origin(val))
+		t.add(oc.reachFrom(val))
+		return t
+	}
+	allInstrs(fn, func(in ssa.Instruction) {
+		switch x := in.(type) {
+		case *ssa.Store:
+			loc = writtenObjectType(x.Addr)
+			record(x.Pos(), "store", oc.origin(x.Addr))
+			loc = nil
+			if isRefType(x.Val.Type()) {
+				if noteStore(oc.origin(x.Addr), stored(x.Val)) {
+					changed = true
+				}
+			}
+		case *ssa.MapUpdate:
+			loc = x.Map.Type()
+			record(x.Pos(), "map update", oc.origin(x.Map))
+			loc = nil
+			if isRefType(x.Value.Type()) {
+				if noteStore(oc.origin(x.Map), stored(x.Value)) {
+					changed = true
+				}
+			}
+		case *ssa.Return:
+			for _, rv := range x.Results {
+				if !isRefType(rv.Type()) {
+					continue
+				}
+				for t := range oc.origin(rv) {
+					if t == "L" {
+						t = "F"
+					}
+					if !s.R[t] {
+						s.R[t] = true
+						changed = true
+					}
+				}
+				for t := range oc.reachFrom(rv) {
+					if t == "L" {
+						t = "F"
+					}
+					if !s.Rc[t] {
+						s.Rc[t] = true
+						changed = true
+					}
+				}
+			}
+		case ssa.CallInstruction:
+			cc := x.Common()
+			if b, ok := cc.Value.(*ssa.Builtin); ok {
+				switch b.Name() {
+				case "append":
+					loc = cc.Args[0].Type()
+					record(x.Pos(), "append (writes the backing array of its first argument when it has spare capacity)", oc.origin(cc.Args[0]))
+					if noteStore(oc.origin(cc.Args[0]), oc.reachFrom(cc.Args[1])) {
+						changed = true
+					}
+				case "copy":
+					loc = cc.Args[0].Type()
+					record(x.Pos(), "copy", oc.origin(cc.Args[0]))
+					if noteStore(oc.origin(cc.Args[0]), oc.reachFrom(cc.Args[1])) {
+						changed = true
+					}
+				case "delete":
+					loc = cc.Args[0].Type()
+					record(x.Pos(), "delete", oc.origin(cc.Args[0]))
+				}
+				loc = nil
+				return
+			}
+			callees := e.callees(x)
+			if len(callees) == 0 {
+				if cc.IsInvoke() {
+					if !readOnlyMethods[cc.Method.Name()] {
+						e.assumed["interface method "+cc.Method.FullName()+" has no implementation in the program; assumed not to write shared memory"] = true
+					}
+				} else {
+					e.assumed["function values of type "+cc.Value.Type().String()+" supplied by the caller (user functions / options) are outside the analysis"] = true
+				}
+				return
+			}
+			for _, g := range callees {
+				if !inRepo(g) {
+					record(x.Pos(), "call of "+funcFullName(g), e.externalWrites(g, x, oc))
+					continue
+				}
+				gs := e.summary(g)
+				for t := range gs.W {
+					one := tagset{}
+					e.mapTag(t, x, g, oc, one)
+					locs := gs.WLoc[t]
+					if len(locs) == 0 {
+						locs = []types.Type{nil}
+					}
+					for _, lt := range locs {
+						lastCallee, lastMap = g, map[string]tagset{t: one}
+						loc = lt
+						record(x.Pos(), "call of "+g.Name(), one)
+					}
+				}
+				loc = nil
+				lastCallee, lastMap = nil, nil
+				args := callArgs(x)
+				for k, st := range gs.S {
+					if k >= len(args) {
+						continue
+					}
+					vals := tagset{}
+					for t := range st {
+						e.mapTag(t, x, g, oc, vals)
+					}
+					dst := tagset{}
+					dst.add(oc.origin(args[k]))
+					dst.add(oc.reachFrom(args[k]))
+					if noteStore(dst, vals) {
+						changed = true
+					}
+				}
+			}
+		}
+	})
+	return changed
+}
+
 // explain finds the leaf writes responsible for the tags in bad (relative to fn).
 func (e *effects) explain(fn *ssa.Function, bad tagset, depth int, seen map[string]bool, out *[]write) {
-	if depth > 12 {
+	if depth > 14 {
 		return
 	}
 	key := fn.String() + "|" + strings.Join(bad.list(), ",")
@@ -823,7 +1119,6 @@ func (e *effects) explain(fn *ssa.Function, bad tagset, depth int, seen map[stri
 	}
 }
 
-// reachStats counts the repository functions and mutating instructions reachable from fn.
 func (e *effects) reachStats(fn *ssa.Function) (funcs, mutating int) {
 	seen := map[*ssa.Function]bool{}
 	var walk func(f *ssa.Function)
